@@ -99,21 +99,63 @@ class SimLock(object):
 
 
 def wrap_module_locks(modules):
-    """Replace module-level (and class-level) lock objects of the given SUT modules by
-    SimLocks.  Returns the number of locks wrapped."""
+    """Replace the lock objects owned by the given SUT modules by SimLocks: module-level names, class
+    attributes, and attributes / items of module-level objects and containers (a private cache object
+    holding `self._lock`, a dict of locks, ...), to depth 3.  Returns the number of locks wrapped."""
     lock_types = (type(threading.Lock()), type(threading.RLock()))
-    n = 0
-    for mod in modules:
-        for name, val in list(vars(mod).items()):
+    names = set(m.__name__ for m in modules)
+    n = [0]
+    seen = set()
+
+    def visit(holder, get_items, set_item, depth):
+        for key, val in get_items():
             if isinstance(val, lock_types):
-                setattr(mod, name, SimLock(val))
-                n += 1
-            elif isinstance(val, type) and getattr(val, '__module__', None) == mod.__name__:
-                for an, av in list(vars(val).items()):
-                    if isinstance(av, lock_types):
-                        setattr(val, an, SimLock(av))
-                        n += 1
-    return n
+                try:
+                    set_item(key, SimLock(val))
+                    n[0] += 1
+                except Exception:
+                    pass
+            elif depth < 3 and id(val) not in seen:
+                seen.add(id(val))
+                descend(val, depth + 1)
+
+    def descend(val, depth):
+        if isinstance(val, dict):
+            visit(val, lambda: list(val.items()), lambda k, v: val.__setitem__(k, v), depth)
+        elif isinstance(val, list):
+            visit(val, lambda: list(enumerate(val)), lambda k, v: val.__setitem__(k, v), depth)
+        elif isinstance(val, type):
+            if getattr(val, '__module__', None) in names:
+                visit(val, lambda: list(vars(val).items()), lambda k, v: setattr(val, k, v), depth)
+        elif getattr(type(val), '__module__', None) in names and hasattr(val, '__dict__'):
+            visit(val, lambda: list(vars(val).items()), lambda k, v: setattr(val, k, v), depth)
+
+    # locks the SUT creates later (inside functions, lazily) must be SimLocks too: rebind the factories
+    import types
+    real_lock, real_rlock = threading.Lock, threading.RLock
+
+    def sim_lock():
+        return SimLock(real_lock())
+
+    def sim_rlock():
+        return SimLock(real_rlock())
+
+    class _ThreadingProxy(types.ModuleType):
+        def __getattr__(self, name):
+            return getattr(threading, name)
+    proxy = _ThreadingProxy('threading')
+    proxy.Lock, proxy.RLock = sim_lock, sim_rlock
+    for mod in modules:
+        for key, val in list(vars(mod).items()):
+            if val is real_lock:
+                setattr(mod, key, sim_lock)
+            elif val is real_rlock:
+                setattr(mod, key, sim_rlock)
+            elif val is threading:
+                setattr(mod, key, proxy)
+    for mod in modules:
+        visit(mod, lambda: list(vars(mod).items()), lambda k, v: setattr(mod, k, v), 0)
+    return n[0]
 
 
 class SimCancelled(BaseException):
